@@ -18,6 +18,8 @@ pub struct Ctl {
     pub cut_up: AtomicI64,
     pub cut_down: AtomicI64,
     pub blackhole: AtomicBool,
+    /// nothing is forwarded while set, the connection stays open
+    pub frozen: AtomicBool,
     pub cuts_done: AtomicU64,
     pub bytes_up: AtomicU64,
     pub bytes_down: AtomicU64,
@@ -40,6 +42,7 @@ impl Proxy {
             cut_up: AtomicI64::new(-1),
             cut_down: AtomicI64::new(-1),
             blackhole: AtomicBool::new(blackhole),
+            frozen: AtomicBool::new(false),
             cuts_done: AtomicU64::new(0),
             bytes_up: AtomicU64::new(0),
             bytes_down: AtomicU64::new(0),
@@ -77,6 +80,10 @@ impl Proxy {
 impl Ctl {
     pub fn arm(&self, up: bool, after: i64) {
         if up { &self.cut_up } else { &self.cut_down }.store(after, Ordering::SeqCst);
+    }
+    pub fn freeze(&self, on: bool) {
+        self.frozen.store(on, Ordering::SeqCst);
+        self.kick.notify_waiters();
     }
     pub fn cut_now(&self) {
         self.gen.fetch_add(1, Ordering::SeqCst);
@@ -134,6 +141,19 @@ async fn pump(
             r = r.read(&mut buf) => match r { Ok(0) | Err(_) => return, Ok(n) => n },
             _ = &mut kicked => { continue }
         };
+        // frozen: hold the bytes until the link is thawed or cut
+        loop {
+            let kicked = ctl.kick.notified();
+            tokio::pin!(kicked);
+            kicked.as_mut().enable();
+            if ctl.gen.load(Ordering::SeqCst) != my_gen {
+                return;
+            }
+            if !ctl.frozen.load(Ordering::SeqCst) {
+                break;
+            }
+            kicked.await;
+        }
         let rem = cut.load(Ordering::SeqCst);
         if rem >= 0 && (n as i64) >= rem {
             // forward exactly `rem` more bytes, then cut
